@@ -45,6 +45,10 @@ T = {
  "R2-C04-A": ("C04", "table.go tableExp10: second lazily filled table of 10^(128i) with 1563 entries and no fallback", "NumDigits (or a parser) on an integer of about 200065 digits or more: index out of range panic"),
  "R2-C05-A": ("C05", "decimal.go Modf: uses frac.Coeff (or integ.Coeff) as the scratch for 10^exp", "Decimal.Modf with frac == receiver (or integ == receiver and frac nil), more than 128 fraction digits and a coefficient long enough for the point to fall inside it"),
  "R2-C06-A": ("C06", "decimal.go NewWithBigInt: struct assignment for non-negative coefficients shares a heap big.Int with the caller's BigInt", "NewWithBigInt from a BigInt >= 2^128 that is still in use (or used for a second Decimal), then an in-place operation on one of the sharers"),
+ "R2-C07-A": ("C07", "table.go NumDigits: lookup-style shortcut for >128-bit values using floor(bl*30102999/1e8) (constant truncated to 8 digits)", "coefficient of exactly 4648 (8652, 9295, ...) digits in the window 10^4647 x [1, 1.0000992) rounded at a smaller Precision: Precision+1 digits kept"),
+ "R2-C08-A": ("C08", "bigint.go isZero()/context.go quoSpecials, Rem: zero test that assumes a heap-backed BigInt is never zero", "a Decimal whose coefficient exceeded 2^128 and was brought to exactly 0 in place, then used as divisor (or dividend of x/0): panic or missing DivisionByZero/DivisionUndefined"),
+ "R2-C17-A": ("C17", "decimal.go Float64: coefficients longer than 1024 digits are truncated before strconv.ParseFloat (sticky information lost)", "more than 1024 digits whose leading 1024 are exactly a float64 midpoint with a non-zero digit further down: wrong neighbour"),
+ "R2-C19-A": ("C19", "table.go NumDigits: fixed-point log10(2) truncated (1292913986/2^32)", "bit length 70777 (141554, ...): 10^21306 reported with 21306 digits; propagates to Context.Reduce counts and Round"),
  "R2-C09-A": ("C09", "table.go tableExp10: lock-free direct-mapped cache (128 slots, key and value in separate atomics)", "concurrent Quantize/RoundToIntegral*/Ceil/Floor with different rescale distances > 128 that are congruent mod 128: a goroutine is handed the wrong power of ten; no data race"),
  "R2-C12-A": ("C12", "context.go Pow: one-entry cache of ln(base) keyed on a struct copy of the base that shares its heap big.Int with the caller's operand", "fractional y, base of >= 39 digits, then the same operand object changed in place (same sign, exponent, digit count) and raised again at the same working precision: old_x ** y is returned. Caught by C06's same-object history family (the C12 oracle sees every single call correct on fresh operands)"),
  "R2-C13-A": ("C13", "bigint.go SetString: two-halves uint128 parser for 20..38-digit strings with a wrong carry test (<= instead of <)", "33..38-digit coefficient whose floor(c/10^19) is a non-zero multiple of 2^45 (2^a*10^b with b >= 19, a+b >= 64): parses back 2^64 too large"),
